@@ -180,6 +180,26 @@ class Impl:
                 self._bound = _Plain()
                 self.sm.bind_events_to(self._bound)
             return self._run(lambda: getattr(self._bound, ev)(*args, **kw), must_await=True)
+        if style == "foreign":
+            # the Event object comes from *another* instance of the class: passing it to send()
+            # must drive this machine, not the one the object was taken from
+            if getattr(self, "_other", None) is None:
+                b = self.built
+                self._other = b.cls(b.new_model(), rtc=self.cfg.rtc,
+                                    allow_event_without_transition=self.cfg.allow)
+                r0 = self._other.activate_initial_state()
+                if inspect.isawaitable(r0):
+                    loop().run_until_complete(r0)
+            other = self._other
+            before = other.current_state_value
+
+            def fn():
+                return self.sm.send(_pick(other.events, ev), *args, **kw)
+            out = self._run(fn, must_await=True)
+            if other.current_state_value != before:
+                return Outcome("exc", AssertionError(
+                    "send(<event of another instance>) drove that other instance"), out.groups)
+            return out
         if style == "mixin":
             return self._run(lambda: getattr(self.sm.model, ev)(*args, **kw), must_await=True)
         raise AssertionError(style)
